@@ -68,8 +68,8 @@ def in_range_angle(rng, cls=None):
 
 def unit_quat(rng, cls=None):
     """A unit quaternion (x,y,z,w), |norm-1| <= 2 eps; returns (list, class label)."""
-    c = cls or rng.choice(["uniform", "wneg", "wzero", "axis180", "identity", "nearid", "negid", "near180"],
-                          p=[0.30, 0.25, 0.10, 0.08, 0.05, 0.10, 0.04, 0.08])
+    c = cls or rng.choice(["uniform", "wneg", "wzero", "axis180", "identity", "nearid", "negid", "near180", "single_axis"],
+                          p=[0.27, 0.22, 0.09, 0.07, 0.05, 0.09, 0.04, 0.07, 0.10])
     if c == "uniform":
         q = rng.normal(size=4)
     elif c == "wneg":
@@ -80,6 +80,12 @@ def unit_quat(rng, cls=None):
     elif c == "axis180":
         q = np.zeros(4)
         q[rng.integers(3)] = rng.choice([-1.0, 1.0])
+    elif c == "single_axis":
+        # a rotation about one coordinate axis (pure yaw / pitch / roll): two vector components exactly zero, either sign of w
+        a = rng.uniform(-PI, PI) * 2
+        q = np.zeros(4)
+        q[rng.integers(3)] = math.sin(a / 2)
+        q[3] = math.cos(a / 2)
     elif c == "identity":
         q = np.array([0.0, 0.0, 0.0, 1.0])
     elif c == "negid":
@@ -590,6 +596,9 @@ def cluster_graph(rng, kinds=None, size=(2, 6), noise_t=0.05, noise_r=0.03, init
     if rng.random() < 0.12:
         spec["np_ids"] = True
         labels.add("ids_as_numpy_int64")
+    if rng.random() < 0.12:
+        spec["prebind_stale"] = True
+        labels.add("edges_prebound_to_stale_vertices")
     if share:
         spec["share"] = share
         spec["share_mode"] = str(rng.choice(["object", "array"]))
